@@ -169,10 +169,10 @@ pub fn run(cfg: &Cfg) -> i32 {
         cfg,
         "exploration",
         "case = (program, host-call history, save point): the story is saved at the point, loaded into a freshly constructed story with the same host bindings, and compared with the uninterrupted control: state right after load, re-save, every later call of the history, final variables and visit counts. Every boundary of every generated history is a save point. Non-trivial = every case (a save of a running story); distinct by (program, history prefix).",
-        cfg.pick(300, 5000),
+        cfg.pick(300, 20000),
     );
     rep.assumptions.push("the control run (same program, same seed, no save) is the reference; defects that affect it identically are out of scope (C01)".into());
-    let nprog = cfg.get_u64("programs", cfg.pick(60, 2500));
+    let nprog = cfg.get_u64("programs", cfg.pick(60, 8000));
     let nhist = cfg.pick(3, 6);
     let gc = GenCfg::rich();
     let mut stories: Vec<Compiled> = Vec::new();
